@@ -340,6 +340,13 @@ func getTagType(v reflect.Value) (byte, reflect.Value) {
 		} else {
 			elemType = getTagTypeByType(v.Type().Elem())
 		}
+		// Only scalar element kinds are packed into the typed arrays; a slice of
+		// Marshalers (e.g. RawMessage) whose tag happens to be Byte, Int or Long
+		// is still a list of such values.
+		switch v.Type().Elem().Kind() {
+		case reflect.Struct, reflect.Pointer, reflect.Map, reflect.Slice, reflect.Array, reflect.String:
+			return TagList, v
+		}
 		switch elemType {
 		case TagByte: // Special types for these values
 			return TagByteArray, v
